@@ -1,6 +1,10 @@
 package props
 
-import "verif/check"
+import (
+	"encoding/json"
+
+	"verif/check"
+)
 
 var s1Assumptions = []string{
 	"one event at a time: after every client event the whole server runs to quiescence (interleavings are the business of the S2 jobs)",
@@ -19,14 +23,20 @@ func init() {
 	plan := func(tags []string, fams []fam, extra func(tier string) []check.Job) check.Planner {
 		return func(tier string) []check.Job {
 			var jobs []check.Job
-			w := 16 / len(fams)
-			if w < 2 {
-				w = 2
-			}
 			for _, f := range fams {
 				d, budget := f.quick, 150
 				if tier == "thorough" {
 					d, budget = f.thoro, 1500
+				}
+				// the big families get most of the worker processes
+				w := 2
+				switch f.name {
+				case "entities":
+					w = 9
+				case "components":
+					w = 5
+				case "modules", "lifecycle":
+					w = 3
 				}
 				jobs = append(jobs, s1job(f.name, d, tags, w, budget))
 			}
@@ -39,7 +49,19 @@ func init() {
 	info := check.PropInfo{Rule: s1Rule, Assumptions: s1Assumptions}
 	check.RegisterProp("C01", plan([]string{"C01"}, []fam{{"entities", 7, 8}, {"components", 5, 6}, {"modules", 4, 5}}, nil), info)
 	check.RegisterProp("C02", plan([]string{"C02"}, []fam{{"entities", 7, 8}, {"components", 5, 6}, {"modules", 4, 5}}, nil), info)
-	check.RegisterProp("C04", plan([]string{"C04"}, []fam{{"entities", 7, 8}, {"components-ids", 3, 4}, {"modules", 4, 5}, {"lifecycle", 6, 8}}, nil), info)
+	check.RegisterProp("C04", plan([]string{"C04"}, []fam{{"entities", 7, 8}, {"components-ids", 3, 4}, {"modules", 4, 5}, {"lifecycle", 6, 8}, {"groundplane", 4, 6}}, func(tier string) []check.Job {
+		// the remaining request kinds: receipts (incl. the queue-full answer), signed latency starts,
+		// and two concurrent adds of one component (exactly one success)
+		p1, _ := json.Marshal(c19Params{Cap: 1, Mode: "never", Pairs: true})
+		p2, _ := json.Marshal(c19Params{Cap: 128, Mode: "200", Pairs: true})
+		p3, _ := json.Marshal(c18Params{Mode: "counts"})
+		return []check.Job{
+			{Kind: "c19", Name: "IN:receipt-pairs-queue-full", Params: p1},
+			{Kind: "c19", Name: "IN:receipt-pairs", Params: p2},
+			{Kind: "c18", Name: "IN:latency-counts", Params: p3},
+			s2job(pairName(pairReq{"a", "cadd"}, pairReq{"b", "cadd"}), 2, 300),
+		}
+	}), info)
 	check.RegisterProp("C05", plan([]string{"C05"}, []fam{{"entities", 7, 8}, {"modules", 4, 5}}, nil), info)
 	check.RegisterProp("C06", plan([]string{"C06"}, []fam{{"entities", 7, 8}, {"components", 5, 6}, {"modules", 4, 5}}, nil), info)
 	check.RegisterProp("C12", plan([]string{"C12"}, []fam{{"components", 5, 6}, {"components-ids", 3, 4}}, nil), info)
